@@ -420,16 +420,22 @@ func (c *ComputedStyle) cascadeValue(key pr.PropKey) (value pr.DeclaredValue, sa
 	parent_style := c.parentStyle
 	if rawTokens, isPending := value.(pr.RawTokens); isPending { // Property with pending values, validate them.
 		var solvedTokens []Token
+		isValid := true
 		for _, token := range rawTokens {
-			tokens := resolveVar(c.variables, token)
-			if tokens == nil {
+			tokens, valid := resolveVar(c.variables, token)
+			if !valid {
+				isValid = false
+			} else if tokens == nil {
 				solvedTokens = append(solvedTokens, token)
 			} else {
 				solvedTokens = append(solvedTokens, tokens...)
 			}
 		}
 		var err error
-		if len(solvedTokens) == 0 {
+		if !isValid {
+			solvedTokens = rawTokens
+			err = errors.New("undefined variable")
+		} else if len(solvedTokens) == 0 {
 			err = errors.New("no value")
 		} else if shortand != 0 {
 			// the tokens must be expanded (shortand are never variable)
@@ -1530,41 +1536,48 @@ func (styleFor StyleFor) SetPageComputedStylesT(pageType utils.PageElement, html
 	}
 }
 
-// Return tokens with resolved CSS variables.
-func resolveVar(computed map[string]pr.RawTokens, token Token) []Token {
+// Return tokens with resolved CSS variables, or nil if [token] has no var().
+// [valid] is false if the substitution makes the declaration
+// invalid at computed-value time.
+func resolveVar(computed map[string]pr.RawTokens, token Token) (tokens []Token, valid bool) {
 	return resolveVarIn(computed, token, nil)
 }
 
 // [inProgress] is the chain of variables currently being substituted:
 // a variable refering (directly or not) to itself is invalid, and is
 // handled as if it were not defined.
-func resolveVarIn(computed map[string]pr.RawTokens, token Token, inProgress []string) []Token {
+func resolveVarIn(computed map[string]pr.RawTokens, token Token, inProgress []string) (tokens []Token, valid bool) {
 	if !validation.HasVar(token) {
-		return nil
+		return nil, true
 	}
 
 	// var() may be nested at any depth in the arguments of a function or in a block
-	resolveArguments := func(args []Token) []Token {
+	resolveArguments := func(args []Token, inProgress []string) ([]Token, bool) {
 		arguments := []Token{}
 		for _, argument := range args {
-			if resolved := resolveVarIn(computed, argument, inProgress); resolved != nil {
+			resolved, valid := resolveVarIn(computed, argument, inProgress)
+			if !valid {
+				return nil, false
+			}
+			if resolved != nil {
 				arguments = append(arguments, resolved...)
 			} else {
 				arguments = append(arguments, argument)
 			}
 		}
-		return arguments
+		return arguments, true
 	}
 	switch block := token.(type) {
 	case pa.ParenthesesBlock:
-		block.Arguments = resolveArguments(block.Arguments)
-		return []Token{block}
+		block.Arguments, valid = resolveArguments(block.Arguments, inProgress)
+		return []Token{block}, valid
 	case pa.SquareBracketsBlock:
-		block.Arguments = resolveArguments(block.Arguments)
-		return []Token{block}
+		block.Arguments, valid = resolveArguments(block.Arguments, inProgress)
+		return []Token{block}, valid
 	case pa.FunctionBlock:
 		if utils.AsciiLower(block.Name) != "var" {
-			return []Token{pa.NewFunctionBlock(token.Pos(), block.Name, resolveArguments(block.Arguments))}
+			arguments, valid := resolveArguments(block.Arguments, inProgress)
+			return []Token{pa.NewFunctionBlock(token.Pos(), block.Name, arguments)}, valid
 		}
 	}
 
@@ -1579,18 +1592,17 @@ func resolveVarIn(computed map[string]pr.RawTokens, token Token, inProgress []st
 		}
 	}
 
-	source := default_
 	if l := computed[variableName]; len(l) != 0 && !isCyclic {
-		source = l
-		inProgress = append(inProgress[:len(inProgress):len(inProgress)], variableName)
-	}
-	computedValue := []Token{}
-	for _, value := range source {
-		if resolved := resolveVarIn(computed, value, inProgress); resolved != nil {
-			computedValue = append(computedValue, resolved...)
-		} else {
-			computedValue = append(computedValue, value)
+		inProgressVar := append(inProgress[:len(inProgress):len(inProgress)], variableName)
+		if computedValue, valid := resolveArguments(l, inProgressVar); valid {
+			return computedValue, true
 		}
+		// the variable is itself invalid at computed-value time: use the default value
 	}
-	return computedValue
+	if default_ == nil {
+		// an undefined variable without default value is invalid
+		// See https://www.w3.org/TR/css-variables-1/#invalid-variables
+		return nil, false
+	}
+	return resolveArguments(default_, inProgress)
 }
